@@ -284,8 +284,9 @@ COLS = ["a", "b", "c", "id", "x1"]
 class QGen:
     """Grammar-based generator of statement specs. Fields are bound to the statement's sources through "#i"."""
 
-    def __init__(self, rng, classes=None, p_alias=0.3, p_subq=0.3, max_depth=2, hostile=0.2, inner_same_cls=0.6):
+    def __init__(self, rng, classes=None, p_alias=0.3, p_subq=0.3, max_depth=2, hostile=0.2, inner_same_cls=0.6, p_corr=0.0):
         self.r = rng
+        self.p_corr = p_corr   # share of item-position sub-queries whose WHERE refers to a table of the enclosing statement
         self.classes = classes or CLS_NAMES
         self.p_alias = p_alias
         self.p_subq = p_subq
@@ -388,6 +389,51 @@ class QGen:
             return ["sub", sub]
         return ["t", self.alias_of(self.num(nsrc, 2))]
 
+    @staticmethod
+    def _item_subs(it):
+        """the statements in item position of an item spec"""
+        k = it[0]
+        if k == "sub":
+            return [it[1]]
+        if k == "in":
+            return [it[2]]
+        if k == "exists":
+            return [it[1]]
+        if k == "cmp":
+            return [it[3]]
+        if k == "func":
+            return [q for a in it[2] for q in QGen._item_subs(a)]
+        if k == "cplx":
+            return QGen._item_subs(it[2]) + QGen._item_subs(it[3])
+        if k == "not":
+            return QGen._item_subs(it[1])
+        return []
+
+    def correlate_where(self, q):
+        """some sub-queries in item position get a WHERE criterion that names a table of this statement (whatever the
+        shape of their WHERE item: the flag _validate_table computes looks at the fields of the whole criterion)"""
+        outer = [s[1] for s in q.get("from", []) if s[0] == "t"]
+        if q.get("k") == "upd":
+            outer = outer + [q["table"]]
+        if not outer or not self.p_corr:
+            return
+        items = list(q.get("selects", [])) + ([q["where"]] if q.get("where") is not None else [])
+        for it in items:
+            for sub in self._item_subs(it):
+                if sub.get("k") != "sel" or not sub.get("from") or self.r.random() > self.p_corr:
+                    continue
+                t = self.r.choice(outer)
+                oref = ["field", self.r.choice(COLS), [t[0], list(t[1]), t[2]], None]
+                iref = ["field", self.r.choice(COLS), ["#0", [], None], None]
+                crit = ["basic", self.r.choice(["eq", "gt", "lte"]), iref, oref, None]
+                w = sub.get("where")
+                if w is None:
+                    sub["where"] = ["t", crit]
+                elif w[0] == "t" and self.r.random() < 0.5:
+                    sub["where"] = ["t", ["cplx", "and", w[1], crit, None]]
+                else:
+                    sub["where"] = ["cplx", "and", w, ["t", crit]] if self.r.random() < 0.7 else ["cplx", "and", ["t", crit], w]
+
     def select(self, cls, depth=0, small=False, nsel=None):
         nfrom = self.r.choice([1, 1, 1, 2] if not small else [1, 1, 1, 1, 2])
         srcs = [self.source(cls, depth) for _ in range(nfrom)]
@@ -439,6 +485,7 @@ class QGen:
             q["with"] = [["cte", w]]
             if self.r.random() < 0.6:
                 q["from"] = q["from"] + [["a", "cte"]]
+        self.correlate_where(q)
         return q
 
     def setop(self, cls):
